@@ -401,6 +401,81 @@ func runC04(c *fw.Ctx) {
 		}
 	}
 	c.Family("AX")
+
+	// ---- integer-emission boundaries through the public API ----
+	// string lengths, table sizes and indices around 2^N-1 and 2^N-1+128 for
+	// every prefix width the encoder uses (RFC 7541 5.1)
+	var item int64
+	doCase := func(cs c04Case, key string) {
+		if item++; !c.Mine(item) {
+			return
+		}
+		var v *fw.Violation
+		for k := 1; k <= len(cs.Ops) && v == nil; k++ {
+			if cs.Ops[k-1].SetMax != nil {
+				continue
+			}
+			pre := c04Case{Cfg: cs.Cfg, Ops: cs.Ops[:k]}
+			var m *c04Model
+			if v, m = c04Eval(pre, c); m == nil {
+				break
+			}
+		}
+		c.Eval(nt(true, []byte("int:"+key)))
+		c.AddTransitions(int64(len(cs.Ops)))
+		if v != nil {
+			v.Shape = "int-boundary " + key
+			c.Violate(*v)
+			c.Outcome(v.Rule)
+		} else {
+			c.Outcome("agree")
+		}
+	}
+	lens := []int{126, 127, 128, 129, 254, 255, 256, 383, 16510, 16511, 16512}
+	for _, cfg := range []c04Config{{false, false}, {true, false}} {
+		for _, l := range lens {
+			for _, store := range []bool{true, false} {
+				for _, sens := range []bool{false, true} {
+					// raw length l, and a string of '0' characters whose Huffman form is l octets long
+					vals := []string{valOfLen(l), strings.Repeat("0", l*8/5)}
+					for vi, val := range vals {
+						doCase(c04Case{Cfg: cfg, Ops: []c04Op{{Fields: []c04Field{{"x-len", val, store, sens}}}, {Fields: []c04Field{{"x-after", "v", true, false}}}}}, fmt.Sprintf("value-length=%d(%d) compress=%v", l, vi, !cfg.NoCompress))
+						doCase(c04Case{Cfg: cfg, Ops: []c04Op{{Fields: []c04Field{{val, "v", store, sens}}}, {Fields: []c04Field{{"x-after", "v", true, false}}}}}, fmt.Sprintf("name-length=%d(%d) compress=%v", l, vi, !cfg.NoCompress))
+					}
+				}
+			}
+		}
+	}
+	for _, sz := range []int{29, 30, 31, 32, 33, 158, 159, 160, 286, 287, 4095, 4096, 16414, 16415, 16416} {
+		sz := sz
+		doCase(c04Case{Ops: []c04Op{{Fields: []c04Field{{"x", "1", true, false}}}, {SetMax: &sz}, {Fields: []c04Field{{"y", "2", true, false}}}, {Fields: []c04Field{{"x", "1", true, false}, {"y", "2", true, false}}}}}, fmt.Sprintf("table-size=%d", sz))
+	}
+	// indices: n dynamic entries, then the oldest one again (full match, index 61+n),
+	// and its name with another value under each literal representation
+	big := 65536
+	for _, n := range []int{1, 2, 3, 65, 66, 67, 129, 130, 131, 193, 194, 195, 257, 258} {
+		ops := []c04Op{{SetMax: &big}}
+		var fs []c04Field
+		for i := 0; i < n; i++ {
+			fs = append(fs, c04Field{fmt.Sprintf("n%d", i), "v", true, false})
+			if len(fs) == 16 || i == n-1 {
+				ops = append(ops, c04Op{Fields: fs})
+				fs = nil
+			}
+		}
+		for _, probe := range []c04Field{{"n0", "v", true, false}, {"n0", "other", true, false}, {"n0", "other", false, false}, {"n0", "other", false, true}, {"n1", "v", false, false}} {
+			doCase(c04Case{Ops: append(append([]c04Op{}, ops...), c04Op{Fields: []c04Field{probe}}, c04Op{Fields: []c04Field{{"x-after", "v", true, false}}})}, fmt.Sprintf("dynamic-index=%d %s store=%v sens=%v", 61+n, map[bool]string{true: "full", false: "name"}[probe.Value == "v"], probe.Store, probe.Sensitive))
+		}
+	}
+	// static name indices around the 4-bit prefix boundary (15 = accept-charset, 16 = accept-encoding)
+	for _, name := range []string{":status", "accept-charset", "accept-encoding", "www-authenticate"} {
+		for _, sens := range []bool{false, true} {
+			for _, store := range []bool{false, true} {
+				doCase(c04Case{Ops: []c04Op{{Fields: []c04Field{{name, "zz", store, sens}}}, {Fields: []c04Field{{"x-after", "v", true, false}}}}}, fmt.Sprintf("static-name=%s store=%v sens=%v", name, store, sens))
+			}
+		}
+	}
+	c.Family("int-boundaries")
 	c.AddTraces(c.Evals)
 }
 
